@@ -14,7 +14,9 @@ EXTENDS Naturals, FiniteSets
 HttpMethods == {"GET", "POST", "OPTIONS", "PUT", "DELETE", "HEAD"}
 \* root: "/"; pyro_noslash: "/pyro"; index: "/pyro/"; one_seg: "/pyro/obj"; obj_trailing: "/pyro/obj/";
 \* call: "/pyro/obj/member"; extra_seg: "/pyro/obj/x/member" (what an encoded slash in the name becomes); outside: "/other/obj/member"
-PathShapes == {"root", "pyro_noslash", "index", "one_seg", "obj_trailing", "call", "extra_seg", "outside"}
+\* lead_seg: "/pyro//obj/member" or "/pyro/./obj/member" - the object name begins with an empty or a dot segment
+PathShapes == {"root", "pyro_noslash", "index", "one_seg", "obj_trailing", "call", "extra_seg", "lead_seg", "outside"}
+CallPaths == {"call", "extra_seg", "lead_seg"}
 \* the object name relative to the registered name http.echo: itself; with a suffix / prefix; in another case; another
 \* registered name under the default pattern; a registered name outside the default pattern; a name nobody registered
 NameClasses == {"exact", "suffix", "prefix", "case", "other_exposed", "unexposed_registered", "unknown"}
@@ -31,10 +33,11 @@ Requests == [meth : HttpMethods, path : PathShapes, name : NameClasses, member :
 
 Registered(n) == n \in {"exact", "other_exposed", "unexposed_registered"}
 \* does the object name (with the extra path segment, if any) match the pattern, as a regular expression matched at the start
-Matches(p, n, extra) ==
+Matches(p, n, path) ==
     CASE p = "empty" -> TRUE
+      [] path = "lead_seg" -> FALSE          \* the name as written begins with "/" or "./": neither pattern matches there
       [] p = "default" -> n \in {"exact", "suffix", "other_exposed", "unknown"}
-      [] p = "anchored" -> n = "exact" /\ ~extra
+      [] p = "anchored" -> n = "exact" /\ path # "extra_seg"
 \* yes / no / either (the two places disagree and the statement does not say which one counts)
 KeyOK(r) == IF r.keycfg = "none" THEN "yes"
             ELSE IF r.hdr = "right" /\ r.par # "wrong" THEN "yes"
@@ -51,7 +54,7 @@ Decide(r) ==
     ELSE IF r.path = "index" THEN "index"
     ELSE IF r.path \in {"one_seg", "obj_trailing"} THEN "notfound"
     ELSE IF KeyOK(r) = "no" THEN "denied"
-    ELSE IF ~Matches(r.pattern, r.name, r.path = "extra_seg") THEN "denied"
+    ELSE IF ~Matches(r.pattern, r.name, r.path) THEN "denied"
     ELSE IF KeyOK(r) = "either" THEN "denied_or_forward"
     ELSE "forward"
 \* may the gateway contact the name server or any object at all
@@ -59,7 +62,7 @@ TrafficAllowed(r) == Decide(r) \in {"index", "forward", "denied_or_forward"}
 
 \* what a forwarded request does: how often the named member runs, the status, and what the body is
 Forward(r) ==
-    IF ~Registered(r.name) \/ r.path = "extra_seg" THEN [inv |-> 0, status |-> 500, body |-> "error"]
+    IF ~Registered(r.name) \/ r.path \in {"extra_seg", "lead_seg"} THEN [inv |-> 0, status |-> 500, body |-> "error"]
     ELSE CASE r.member = "meta" -> [inv |-> 0, status |-> 200, body |-> "meta"]
            [] r.member \in {"unknown", "private"} -> [inv |-> 0, status |-> 500, body |-> "error"]
            [] r.member = "method" -> [inv |-> 1, status |-> 200, body |-> IF r.oneway THEN "any" ELSE "result"]
@@ -76,8 +79,8 @@ Spec == Init /\ [][Next]_r
 \* traffic only for requests that present the key (when configured) and name an object matching the pattern - or the index page
 OnlyAuthorised == (TrafficAllowed(r) /\ Decide(r) # "index") =>
                      /\ r.keycfg = "set" => (r.hdr = "right" \/ r.par = "right")
-                     /\ Matches(r.pattern, r.name, r.path = "extra_seg")
-                     /\ r.meth \in {"GET", "POST"} /\ r.path \in {"call", "extra_seg"}
+                     /\ Matches(r.pattern, r.name, r.path)
+                     /\ r.meth \in {"GET", "POST"} /\ r.path \in CallPaths
 \* something runs behind the gateway only for a registered object's existing public member
 InvokesOnlyNamed == (Decide(r) \in {"forward", "denied_or_forward"} /\ Forward(r).inv = 1) =>
                         Registered(r.name) /\ r.member \in {"method", "method_raises", "attribute", "method_slow"}
